@@ -224,10 +224,17 @@ class Interp:
                 self.env = env
                 self.ev(st.test)
                 t = self.static_truth(st.test, env)
+                scalar_name, scalar_when = self.scalar_guard(st.test)
                 if t is not False:
-                    out += self.block(st.body, [dict(env)])
+                    e1 = dict(env)
+                    if scalar_name and scalar_when is True:
+                        e1[scalar_name] = UNT
+                    out += self.block(st.body, [e1])
                 if t is not True:
-                    out += self.block(st.orelse, [dict(env)])
+                    e2 = dict(env)
+                    if scalar_name and scalar_when is False:
+                        e2[scalar_name] = UNT
+                    out += self.block(st.orelse, [e2])
             return out
         if isinstance(st, (ast.For, ast.While)):
             for env in states:
@@ -292,6 +299,19 @@ class Interp:
             out.append(env)
         return out
 
+    @staticmethod
+    def scalar_guard(test):
+        """(name, arm) when the test says that `name` is a plain number in that arm: is_numerical_scalar(x) / np.isscalar(x) / not ..."""
+        neg = False
+        t = test
+        if isinstance(t, ast.UnaryOp) and isinstance(t.op, ast.Not):
+            neg, t = True, t.operand
+        if isinstance(t, ast.Call) and len(t.args) == 1 and isinstance(t.args[0], ast.Name):
+            fname = t.func.attr if isinstance(t.func, ast.Attribute) else getattr(t.func, "id", "")
+            if fname in ("is_numerical_scalar", "isscalar"):
+                return t.args[0].id, (not neg)
+        return None, None
+
     def static_truth(self, test, env):
         # `x is None` / `x is not None` for parameters bound to objects; isinstance on known classes
         if isinstance(test, ast.Compare) and len(test.ops) == 1 and isinstance(test.ops[0], (ast.Is, ast.IsNot)) \
@@ -328,7 +348,9 @@ class Interp:
             old = env.get(target.value.id)
             if isinstance(old, HV) and isinstance(v, (HV, OV)):
                 new = collapse(as_hv(v))
-                if old.ones and not old.tainted and new.tainted and not new.top and not new.mixed and not (new.parts or new.cols):
+                if old.mixed:
+                    nv = old
+                elif old.ones and not old.tainted and new.tainted and not new.top and not new.mixed and not (new.parts or new.cols):
                     nv = replace(new, mixed=f"raw homogeneous data ({new.describe()}) stored next to non-zero constants of an identity/ones matrix", proj=True)
                 else:
                     nv = H.join(old, new) if (old.tainted or new.tainted) else old
@@ -480,6 +502,10 @@ class Interp:
         return isinstance(node, ast.Name) and node.id in TOL_NAMES
 
     def binop(self, op, l, r, node):
+        if isinstance(l, OV) and not l.types and isinstance(r, HV):
+            l = l.arr  # an operand typed `Tensor | ArrayLike`: plain array arithmetic
+        if isinstance(r, OV) and not r.types and isinstance(l, HV):
+            r = r.arr
         if isinstance(l, OV) or isinstance(r, OV):
             if isinstance(op, (ast.Add, ast.Sub)):
                 return H.TOP_OBJ
@@ -773,6 +799,12 @@ class Interp:
             if isinstance(f.value, ast.Call) and isinstance(f.value.func, ast.Name) and f.value.func.id == "super":
                 recv = self.env.get(self.fn.params()[0].arg) if self.fn.params() else None
                 if f.attr in ("__init__", "__new__"):
+                    for a in args:
+                        h = a if isinstance(a, HV) else None
+                        if h is not None and h.mixed and h.deg and not any(sy.split("@")[0].split("#")[0] in ("self",) for sy, _q, _c in h.deg):
+                            self.an.sink("E5.object", self.fn, self.cur_stmt(e), VIOLATION,
+                                         f"`{ast.unparse(e)[:80]}` builds the object from an array that is not homogeneous: {h.mixed}; the object "
+                                         f"depends on the representative of the argument, not on the argument", {"mixed": h.mixed})
                     return OTHER
                 if isinstance(recv, OV):
                     return self.method(e, recv, f.attr, args, kws)
@@ -816,8 +848,8 @@ class Interp:
             el = as_hv(elem_of(args[0]))
             if el.top:
                 return el
-            if el.tainted and H.has_generic(el):
-                return TOP("python sum over vertices of raw coordinates")
+            if el.tainted and H.has_generic(el) and not el.mixed:
+                return replace(el, aff=None, mixed="sum over the vertices of raw homogeneous coordinates, each of which has its own scale", proj=True)
             return el
         if name in ("len", "range", "isinstance", "int", "float", "bool", "str", "type", "hasattr", "getattr", "min", "max", "round", "enumerate", "zip",
                     "print", "any", "all", "slice", "super", "complex"):
@@ -911,6 +943,8 @@ class Interp:
                 return a0
             if not b.tainted and self._is_zeros(e.args[1] if len(e.args) > 1 else None):
                 return replace(a0, aff=None)
+            if not b.tainted and not a0.mixed and not (a0.parts or a0.cols) and not b.zero:
+                return replace(a0, aff=None, mixed=f"raw homogeneous coordinates ({a0.describe()}) appended to coordinates that do not scale with them", proj=True)
             return TOP("append of arrays with different degrees")
         if name in ("sum", "mean", "average", "prod", "min", "max", "amin", "amax", "median", "cumsum"):
             v = a0 if not (isinstance(raw0, LV)) else as_hv(elem_of(raw0))
@@ -930,6 +964,8 @@ class Interp:
                 return TOP("product over an axis of unknown length")
             if axis_c == -1 and not v.parts and not v.cols:
                 return replace(v, aff=None)
+            if H.has_generic(v) and not v.parts and not v.cols and name in ("sum", "mean", "average"):
+                return replace(v, aff=None, mixed=f"np.{name} over the vertices of raw homogeneous coordinates, each of which has its own scale", proj=True)
             if H.has_generic(v) or v.parts or v.cols:
                 return TOP(f"np.{name} over vertices of raw coordinates, each with its own scale")
             return replace(v, aff=None)
@@ -1225,7 +1261,11 @@ class Interp:
                 return OV(arr=ev.arr, finite=ev.finite, types=types, label=ev.label)  # Point(*[point]) copies the point
             h = as_hv(v)
             text = ast.unparse(e)[:80]
-            if pointlike and h.proj:
+            if pointlike and h.mixed:
+                self.an.sink("E5.affine", self.fn, self.cur_stmt(e), VIOLATION,
+                             f"`{text}` takes the coordinates of a point from an inhomogeneous combination: {h.mixed}; the point depends on the "
+                             f"representatives of the vertices, not on the vertices", {"mixed": h.mixed})
+            elif pointlike and h.proj:
                 if h.top:
                     self.an.sink("E5.affine", self.fn, self.cur_stmt(e), UNDECIDED, f"`{text}`: affine coordinates {h.describe()}", None)
                 elif h.tainted:
